@@ -262,6 +262,75 @@ func c18Exec(x *Ctx) {
 				}
 				call(&Msg{Type: Tclunk, Fid: 3})
 			}
+			// a rename through a fid that designates the exported root itself, or a directory just below it: a
+			// plain name then lands next to the root
+			if aname == "" && r.Pct(35) {
+				var wn []string
+				if r.Bool() {
+					wn = []string{"sub", ".."}
+				}
+				if cr := call(&Msg{Type: Twalk, Fid: 0, Newfid: 6, Wname: wn}); cr != nil && cr.M != nil && cr.M.Type == Rwalk && len(cr.M.Wqid) == len(wn) {
+					nn := []string{"moved", "canary.txt", "root.bak", evilName(r, real, u.Outer)}[r.Intn(4)]
+					call(&Msg{Type: Twstat, Fid: 6, Stat: nullStat(func(s *Stat) { s.Name = nn })})
+					if sr := call(&Msg{Type: Tstat, Fid: 6}); sr != nil && sr.M != nil && sr.M.Type == Rstat {
+						checkQid(sr.M.Stat.Qid, fmt.Sprintf("rename of the root fid to %q, then Tstat", nn))
+					}
+					if wr := call(&Msg{Type: Twalk, Fid: 6, Newfid: 7, Wname: []string{"..", "canary.txt"}}); wr != nil && wr.M != nil && wr.M.Type == Rwalk {
+						for _, q := range wr.M.Wqid {
+							checkQid(q, fmt.Sprintf("rename of the root fid to %q, then walk '..', 'canary.txt'", nn))
+						}
+						if len(wr.M.Wqid) == 2 {
+							call(&Msg{Type: Tclunk, Fid: 7})
+						}
+					}
+					call(&Msg{Type: Tclunk, Fid: 6})
+					x.Probe("rename-through-the-root-fid")
+					if _, err := os.Lstat(u.Root); err != nil {
+						// the exported directory itself is gone from its place
+						x.Violate("x4-outside-modified", "a Twstat renaming the fid of the exported root to %q moved the exported directory itself", nn)
+						return
+					}
+				}
+			}
+			// two walks in one segment: the second starts from the new fid of the first, which is still in progress
+			if aname == "" && r.Pct(35) {
+				d := dirs[r.Intn(len(dirs))]
+				first := append(splitRel(d), ".", ".", ".", ".")
+				if len(first) > 16 {
+					first = first[:16]
+				}
+				var second []string
+				for _, e := range strings.Split(strings.TrimPrefix(filepath.Join(u.Outer, "canary.txt"), "/"), "/") {
+					second = append(second, e)
+				}
+				if len(second) <= 16 {
+					tag += 3
+					ss := p.Write(&Msg{Type: Twalk, Tag: tag - 2, Fid: 0, Newfid: 8, Wname: first},
+						&Msg{Type: Twalk, Tag: tag - 1, Fid: 8, Newfid: 9, Wname: second},
+						&Msg{Type: Tstat, Tag: tag, Fid: 9})
+					rt.YieldUntil(rt.SiteActor, func() bool { return allReplied(ss) || p.EOF })
+					if p.EOF {
+						x.Violate("x0-stalled", "the connection was dropped after two pipelined walks")
+						return
+					}
+					if wr := ss[1].Reply; wr != nil && wr.M != nil && wr.M.Type == Rwalk {
+						for _, q := range wr.M.Wqid {
+							checkQid(q, fmt.Sprintf("Twalk from fid 8 by %q pipelined behind the Twalk that creates fid 8", second))
+						}
+					}
+					if sr := ss[2].Reply; sr != nil && sr.M != nil && sr.M.Type == Rstat {
+						checkQid(sr.M.Stat.Qid, "Tstat after two pipelined walks")
+						if or := call(&Msg{Type: Topen, Fid: 9, Mode: 0}); or != nil && or.M != nil && or.M.Type == Ropen {
+							if rr := call(&Msg{Type: Tread, Fid: 9, Offset: 0, Count: 200}); rr != nil && rr.M != nil && rr.M.Type == Rread && bytes.Contains(rr.M.Data, []byte(canaryText)) {
+								x.Violate("x1-read-outside", "two pipelined walks led to a fid through which a file outside the exported tree was read")
+							}
+						}
+					}
+					call(&Msg{Type: Tclunk, Fid: 8})
+					call(&Msg{Type: Tclunk, Fid: 9})
+					x.Probe("walk-pipelined-on-a-fid-being-walked")
+				}
+			}
 			// rename with an evil target
 			rn := evilName(r, real, u.Outer)
 			if cr := call(&Msg{Type: Twalk, Fid: 0, Newfid: 4, Wname: []string{"sub", "file"}}); cr != nil && cr.M != nil && cr.M.Type == Rwalk && len(cr.M.Wqid) == 2 && aname == "" {
